@@ -29,7 +29,7 @@ RULE = ("cases: package configurations; executions: one plot() call per (n selec
         "(configuration, n selected, mode, form) with more than one curve or more than one selected fit")
 ASSUMPTIONS = ["results come from cube packages fitted at tabulated wavelengths", "tolerance 2e-3 for the rounded physical constants"]
 REQUIRED_CLASSES = ['mode-interp', 'mode-largest', 'mode-largest+smallest', 'mode-all', 'multi-aperture', 'single-aperture', 'mixed-theta', 'form-object', 'form-file', 'five-fits',
-                    'distance-dependent', 'distance-independent', 'cube-wav-ascending']
+                    'distance-dependent', 'distance-independent', 'cube-wav-ascending', 'several-sources-one-call']
 TIMEOUT = {'quick': 600, 'thorough': 3000}
 
 AXES = {'n_ap': [3, 1], 'sord': ['wav-desc', 'wav-asc'], 'theta': ['mixed', 'uniform'], 'memmap': [True, False], 'avr': [(0.0, 5.0), (2.0, 2.0)]}
@@ -175,5 +175,80 @@ def run_case(ctx, case, rec, d):
                         break
                 if bad:
                     rec.violation('plot|%s|curve-vs-stored' % mode, sub, {'problem': bad, 'scale': sc_all[:nsel], 'av': np.asarray(info.av, float)[:nsel]})
+    # ---- several sources in ONE plot() call (they share the selected models, at different scales): every source's
+    # curves must still be its own fitted models
+    srcs = []
+    for q, fac in enumerate((1.0, 0.25, 3.0)):
+        srcs.append(fc.make_source([1, 1, 1], src_flux * fac, 0.1 * src_flux * fac, name='multi%d' % q))
+    for mode in MODES:
+        for form in ('list', 'file'):
+            infos = [ft.fit(s_) for s_ in srcs]
+            stored_all = [np.asarray(i_.model_fluxes, float).copy() for i_ in infos]
+            sc_multi = [np.asarray(i_.sc, float).copy() for i_ in infos]
+            if form == 'file':
+                ncall += 1
+                fn = os.path.join(d, 'm%d.fitinfo' % ncall)
+                w = FitInfoFile(fn, 'w')
+                for i_ in infos:
+                    w.write(i_)
+                w.close()
+                arg = fn
+            else:
+                arg = infos
+            sub = {'n_selected': 3, 'mode': mode, 'form': form, 'sources': 3}
+            rec.cls('several-sources-one-call')
+            try:
+                figs = plot(arg, output_dir=None, select_format=('N', 3), sed_type=mode, memmap=case['memmap'])
+            except Exception as e:
+                from mc.runner import exc_signature
+                rec.ev()
+                rec.violation('plot|%s|%s' % (mode, exc_signature(e)), sub, {'type': type(e).__name__, 'msg': str(e)[:300]})
+                continue
+            rec.trans()
+            rec.trace()
+            rec.nontriv((cfg, 'multi', mode, form))
+            ncur = ({'interp': 1, 'largest': 1, 'largest+smallest': 2, 'all': len(uap)}[mode]) if n_ap > 1 else (1 if mode in ('interp', 'largest') else (2 if mode == 'largest+smallest' else len(uap)))
+            bad = None
+            for q, s_ in enumerate(srcs):
+                if s_.name not in figs or 'lines' not in figs[s_.name]:
+                    bad = 'no curves returned for source %s' % s_.name
+                    break
+                segs = [np.asarray(sg) for sg in figs[s_.name]['lines'].get_segments()]
+                if len(segs) != 3 * ncur:
+                    bad = '%s: %d curves, expected %d' % (s_.name, len(segs), 3 * ncur)
+                    break
+                for i in range(3):
+                    grp = segs[(3 - 1 - i) * ncur:(3 - i) * ncur]
+                    pred = 10 ** (stored_all[q][i] - 26.0 + np.log10(299792458.0 / (WAV[BANDS] * 1e-6)))
+                    for jb, b in enumerate(BANDS):
+                        if mode == 'interp' or ncur == 1:
+                            if mode == 'largest' and theta[jb] != max(theta):
+                                continue
+                            cur = grp[0]
+                        elif mode == 'largest+smallest':
+                            if theta[jb] == min(theta):
+                                cur = grp[0]
+                            elif theta[jb] == max(theta):
+                                cur = grp[1]
+                            else:
+                                continue
+                        else:
+                            cur = grp[list(uap).index(theta[jb])]
+                        kx = int(np.argmin(np.abs(cur[:, 0] - WAV[b])))
+                        rec.ev()
+                        allow = 2e-3
+                        if n_ap > 1 and mode == 'interp' and theta[jb] * 10 ** sc_multi[q][i] * 1000.0 > aps[-1]:
+                            m_idx = names.index(str(np.asarray(infos[q].model_name)[i]).strip())
+                            v = val[m_idx, :, b]
+                            allow += abs((v[-1] - v[-2]) / (aps[-1] - aps[-2]) * 0.001 * aps[-1] / v[-1])
+                        if abs(cur[kx, 1] / pred[jb] - 1.0) > allow:
+                            bad = '%s, fit rank %d, filter %r micron: curve %r, stored prediction %r' % (s_.name, i + 1, WAV[b], cur[kx, 1], pred[jb])
+                            break
+                    if bad:
+                        break
+                if bad:
+                    break
+            if bad:
+                rec.violation('plot|%s|curve-vs-stored|several-sources' % mode, sub, {'problem': bad})
     if case.get('_deviations') == 0:
         rec.sample({'config': {kk: v for kk, v in case.items()}, 'filters_micron': WAV[BANDS], 'theta_arcsec': theta, 'calls': 'n selected {1,3,5} x modes %s x {object,file}' % MODES})
